@@ -2120,6 +2120,14 @@ class Executor(object):
                                 t = False
                             elif not can_t and not can_f:
                                 continue          # the path itself is infeasible
+                            elif getattr(self, "fork_unrolled_guards", False) and _ < 6:
+                                # both outcomes possible: follow both (the unrolling stays bounded by `limit`; a loop that does not
+                                # finish within it is reported as unsupported below)
+                                s_exit = s1.fork()
+                                s_exit.assume(z3.Not(gb))
+                                out.extend(self.exec_block(node.orelse, s_exit, ctx) if node.orelse else [(s_exit, None)])
+                                s1.assume(gb)
+                                t = True
                             else:
                                 if os.environ.get("VERIF_TRACE"):
                                     sys.stderr.write("[unroll-pc] %s\n" % [str(a)[:120] for a in s1.pc if "hl1_len" in str(a) and len(str(a)) < 400])
